@@ -1,5 +1,6 @@
 import Darling.Options
 import Darling.Props.C07
+import Darling.Spec.PanicInventory
 /-
   C06 — The derive macros are total: they diagnose, they never crash.
 
@@ -260,5 +261,8 @@ theorem fieldFromDecl_returns (o : Oracle) (core : CoreOpts) (f : FieldD)
 def pD : Path := { global := false, segs := ["darling"], plain := true, toks := "darling", span := ⟨2, 9⟩ }
 def bare : Attr := { path := pD, body := .path pD, toks := "#[darling]", span := ⟨0, 10⟩ }
 example : ∃ e, finishWith (parseAttributes (fieldStep {}) ({} : FieldOpts) [] [bare]) = .err e := ⟨_, rfl⟩
+
+/-- T3: the explicit panic sites of the current source are exactly the classified inventory -/
+theorem inventory_current : Generated.panicSites = Spec.PanicInventory.sites.map (·.key) := by decide
 
 end C06
